@@ -383,10 +383,12 @@ func (s *Spec) Locate(h *dbh.H) (out string) {
 	}()
 	shape := h.DB.VerifLSM().VerifShape(false)
 	found := map[string][]string{}
-	cur := ""
+	lastC := map[string]int{} // container index of the last recorded copy per key
+	cur, curIdx := "", 0
 	for _, line := range strings.Split(shape, "\n") {
 		if m := reContainer.FindStringSubmatch(line); m != nil {
 			cur = m[1]
+			curIdx++
 			if i := strings.IndexAny(cur, "[="); i >= 0 {
 				cur = cur[:i]
 			}
@@ -394,7 +396,8 @@ func (s *Spec) Locate(h *dbh.H) (out string) {
 		}
 		for _, k := range s.Keys() {
 			if strings.HasPrefix(line, fmt.Sprintf("  0/%q@", k)) {
-				if n := len(found[k]); n == 0 || found[k][n-1] != cur {
+				if lastC[k] != curIdx { // several versions inside one container count once
+					lastC[k] = curIdx
 					found[k] = append(found[k], cur)
 				}
 			}
@@ -402,7 +405,20 @@ func (s *Spec) Locate(h *dbh.H) (out string) {
 	}
 	var parts []string
 	for _, k := range s.Keys() {
-		parts = append(parts, k+":"+strings.Join(found[k], "+"))
+		var cls []string
+		for i := 0; i < len(found[k]); {
+			j := i
+			for j < len(found[k]) && found[k][j] == found[k][i] {
+				j++
+			}
+			if j-i > 1 {
+				cls = append(cls, fmt.Sprintf("%s*%d", found[k][i], j-i)) // copies in several containers of one class
+			} else {
+				cls = append(cls, found[k][i])
+			}
+			i = j
+		}
+		parts = append(parts, k+":"+strings.Join(cls, "+"))
 	}
 	return strings.Join(parts, ";")
 }
